@@ -118,6 +118,51 @@ def gen_cases(rng, tier):
     return cases
 
 
+def two_definers_cases(rng, n):
+    """directed (P)-only scenario (seeded/C13_r3): a space X with parameters inherits a cells of ONE name from two bases
+    A and B whose definitions DIFFER (B's is created by a Py operation, so the case is outside the vocabulary of
+    Alive/Model.v, where a formula is a function of the cells name); handles to an ItemSpace X[k], to its copy of the
+    cells and to a value computed there; then X loses A's definition (del A.c, X.remove_bases(A), del M.A, or A.c is
+    redefined) and re-derives the cells from B.  The old handles must be dead, or at least show nothing of A's definition
+    (p_check copy-of-deleted, the edits-only differential on the held values)."""
+    cases = []
+    for _ in range(n):
+        nm = rng.choice(CELL_NAMES)
+        va, vb = rng.sample(range(100, 999), 2)
+        ft = [[c, ["const", va if c == nm else rng.randint(1, 9)]] for c in CELL_NAMES]
+        ops = [["NewSpace", 0, "S0", [], False],                       # H1 = A
+               ["NewSpace", 0, "S1", [], False],                       # H2 = B
+               ["NewCells", 1, nm],                                    # H3 = A.c
+               ["Py", "H.append(H[2].new_cells(%r, formula='lambda x: %d'))" % (nm, vb)]]   # H4 = B.c
+        nested = rng.random() < 0.3
+        if nested:
+            ops += [["NewSpace", 0, "S2", [], True],                   # H5 = outer space with parameters
+                    ["NewSpace", 5, "S3", [1, 2], rng.random() < 0.5]]  # H6 = X (child of H5)
+            ops += [["GetItem", 5, rng.randint(0, 2)], ["Take", 7, "S3"]]          # H7 = H5[k], H8 = its copy of X
+            x = 8
+        else:
+            ops += [["NewSpace", 0, "S2", [1, 2], True]]               # H5 = X
+            ops += [["GetItem", 5, rng.randint(0, 2)]]                 # H6 = X[k]
+            x = 6
+        ops += [["Take", x, nm]]                                       # the copy of the cells
+        ops += [["Eval", x + 1, rng.randint(0, 3)]]
+        if rng.random() < 0.4:
+            ops += [["NewCells", 2 if rng.random() < 0.5 else 1, rng.choice([c for c in CELL_NAMES if c != nm])]]
+        xs = 6 if nested else 5
+        trig = rng.choice(["delcells", "removebases", "delspace", "redefine"])
+        if trig == "delcells":
+            ops += [["DelAttr", 1, nm]]
+        elif trig == "removebases":
+            ops += [["RemoveBases", xs, [1]]]
+        elif trig == "delspace":
+            ops += [["DelAttr", 0, "S0"]]
+        else:
+            ops += [["Py", "H[3].set_formula('lambda x: %d')" % rng.randint(1000, 1999)]]
+        ops += [["Take", xs, nm], ["Eval", len([o for o in ops if o[0] in ("NewSpace", "NewCells", "GetItem", "Take") or (o[0] == "Py" and "H.append" in o[1])]) + 1, 1]]
+        cases.append({"ftab": ft, "ops": ops, "full": "del", "avoid": False, "gen": None, "profile": "two-definers"})
+    return cases
+
+
 # --------------------------------------------------------------------------
 # emitting Coq terms
 # --------------------------------------------------------------------------
@@ -253,6 +298,7 @@ def run(tier, seed, rng):
     ncorpus = [(name, d) for name, d in corpus if d["case"].get("nested")]
     corpus = [(name, d) for name, d in corpus if not d["case"].get("nested")]
     cases = [dict(d["case"], profile="corpus:" + name) for name, d in corpus] + gen_cases(rng, tier)
+    cases += two_definers_cases(random.Random(rng.getrandbits(64)), 60 if tier == "quick" else 600)
     # nested class ((P) only): its own generator, seeded after the model-tied cases were drawn
     rng_n = random.Random(rng.getrandbits(64))
     ncases = [dict(d["case"], profile="corpus:" + name) for name, d in ncorpus] + \
